@@ -40,6 +40,14 @@ pub struct Spec {
     /// limiter window in seconds (default: one hour, so that no window rolls over inside a history)
     #[serde(default = "hour")]
     window_s: u64,
+    /// connection timeout of the listener in seconds (default 20; 1 for histories with a client that stalls
+    /// before its header is complete until the server gives up)
+    #[serde(default = "twenty")]
+    timeout_s: u64,
+}
+
+fn twenty() -> u64 {
+    20
 }
 
 fn hour() -> u64 {
@@ -102,6 +110,8 @@ fn header_bytes(kind: &Kind, server: SocketAddr) -> Vec<u8> {
         "v2-local" => proxy_v2_local(),
         "malformed" => b"PROXY TCP4 999.1.1.1 1.1.1.1 1 1\r\n".to_vec(),
         "truncated" => proxy_v1(X.parse().unwrap(), server)[..12].to_vec(),
+        "stall-silent" => vec![],
+        "stall-half-header" => proxy_v1(X.parse().unwrap(), server)[..20].to_vec(),
         h if h.starts_with("v1/") || h.starts_with("v2/") => {
             let (ver, rest) = h.split_at(2);
             let a: SocketAddr = rest.split_once(':').unwrap().1.parse().unwrap();
@@ -137,7 +147,7 @@ fn expect(proxy: &str, kind: &Kind, peer_addr: SocketAddr) -> Expect {
     // "neither": PROXY protocol is on but no version is allowed, so no header can be valid
     let version_allowed = |v: &str| proxy == "v1v2" || (proxy == "v2only" && v == "v2") || (proxy == "v1only" && v == "v1");
     match kind.header.as_str() {
-        "none" | "malformed" | "truncated" => Expect::ClosedUncounted,
+        "none" | "malformed" | "truncated" | "stall-silent" | "stall-half-header" => Expect::ClosedUncounted,
         "v1-unknown" => if version_allowed("v1") { Expect::PeerOrClosed } else { Expect::ClosedUncounted },
         "v2-local" => if version_allowed("v2") { Expect::PeerOrClosed } else { Expect::ClosedUncounted },
         h => {
@@ -178,6 +188,11 @@ async fn run_connection(server: SocketAddr, kind: &Kind, login: bool) -> ConnObs
         None => {
             let _ = c.send_raw(&hdr).await;
         }
+    }
+    if kind.header.starts_with("stall-") {
+        // nothing more comes from this client: the server gives up at its connection timeout (1 s in these histories)
+        let r = c.wait_closed(Duration::from_secs(4)).await;
+        return ConnObs { served: false, bytes_received: c.received, local, detail: format!("{r:?}"), login_cookie_addr: None, login_transferred: false };
     }
     if kind.header == "truncated" {
         use tokio::io::AsyncWriteExt;
@@ -221,7 +236,7 @@ fn run_history(spec: &Spec) -> Vec<(String, String)> {
                 _ => Some((false, true)),
             },
             limiter: (spec.limit > 0).then_some((spec.window_s, spec.limit)),
-            timeout: Duration::from_secs(20),
+            timeout: Duration::from_secs(spec.timeout_s),
             auth_secret: Some(b"c15-secret".to_vec()),
         };
         let running = start_listener(&cfg, adapters).await;
@@ -401,16 +416,16 @@ pub fn run(cli: Cli) -> ! {
                 if limit == 0 && h.len() > 2 {
                     continue; // without a limiter histories add nothing beyond pairs
                 }
-                specs.push(Spec { proxy: proxy.into(), limit, history: h, login_last: false, via_start: false, window_s: 3600 });
+                specs.push(Spec { proxy: proxy.into(), limit, history: h, login_last: false, via_start: false, window_s: 3600, timeout_s: 20 });
             }
         }
         // one history per configuration and limiter setting ends in a full login
         for limit in [0usize, 2] {
             let ks = kinds(proxy);
             for first in [ks[0].clone(), ks[ks.len() - 1].clone()] {
-                specs.push(Spec { proxy: proxy.into(), limit, history: vec![first, ks[0].clone()], login_last: true, via_start: false, window_s: 3600 });
+                specs.push(Spec { proxy: proxy.into(), limit, history: vec![first, ks[0].clone()], login_last: true, via_start: false, window_s: 3600, timeout_s: 20 });
                 if proxy != "off" {
-                    specs.push(Spec { proxy: proxy.into(), limit, history: vec![ks[4].clone()], login_last: true, via_start: false, window_s: 3600 });
+                    specs.push(Spec { proxy: proxy.into(), limit, history: vec![ks[4].clone()], login_last: true, via_start: false, window_s: 3600, timeout_s: 20 });
                 }
             }
         }
@@ -419,18 +434,18 @@ pub fn run(cli: Cli) -> ! {
     for limit in [0usize, 1] {
         let ks = kinds("v1v2");
         for a in &ks {
-            specs.push(Spec { proxy: "neither".into(), limit, history: vec![a.clone()], login_last: false, via_start: false, window_s: 3600 });
+            specs.push(Spec { proxy: "neither".into(), limit, history: vec![a.clone()], login_last: false, via_start: false, window_s: 3600, timeout_s: 20 });
         }
-        specs.push(Spec { proxy: "neither".into(), limit, history: ks.clone(), login_last: false, via_start: false, window_s: 3600 });
+        specs.push(Spec { proxy: "neither".into(), limit, history: ks.clone(), login_last: false, via_start: false, window_s: 3600, timeout_s: 20 });
     }
     // headers that arrive in two segments with a pause (every split kind alone, after and before a
     // connection announcing the same source, under limit 1 and 2)
     for limit in [1usize, 2, 0] {
         for sk in split_kinds() {
             let whole = k("127.0.0.2", &sk.header.replacen(&sk.header[2..sk.header.find(':').unwrap()], "", 1));
-            specs.push(Spec { proxy: "v1v2".into(), limit, history: vec![sk.clone()], login_last: false, via_start: false, window_s: 3600 });
-            specs.push(Spec { proxy: "v1v2".into(), limit, history: vec![whole.clone(), sk.clone()], login_last: false, via_start: false, window_s: 3600 });
-            specs.push(Spec { proxy: "v1v2".into(), limit, history: vec![sk.clone(), whole.clone(), sk.clone()], login_last: false, via_start: false, window_s: 3600 });
+            specs.push(Spec { proxy: "v1v2".into(), limit, history: vec![sk.clone()], login_last: false, via_start: false, window_s: 3600, timeout_s: 20 });
+            specs.push(Spec { proxy: "v1v2".into(), limit, history: vec![whole.clone(), sk.clone()], login_last: false, via_start: false, window_s: 3600, timeout_s: 20 });
+            specs.push(Spec { proxy: "v1v2".into(), limit, history: vec![sk.clone(), whole.clone(), sk.clone()], login_last: false, via_start: false, window_s: 3600, timeout_s: 20 });
         }
     }
     // The budget is charged when the connection is admitted, not when it was accepted: with a one second
@@ -450,9 +465,22 @@ pub fn run(cli: Cli) -> ! {
                 }
                 h2.push(late("127.0.0.1", ver, X));
                 h2.push(prompt.clone());
-                specs.push(Spec { proxy: "v1v2".into(), limit, history: h1, login_last: false, via_start: false, window_s: 1 });
-                specs.push(Spec { proxy: "v1v2".into(), limit, history: h2, login_last: false, via_start: false, window_s: 1 });
+                specs.push(Spec { proxy: "v1v2".into(), limit, history: h1, login_last: false, via_start: false, window_s: 1, timeout_s: 20 });
+                specs.push(Spec { proxy: "v1v2".into(), limit, history: h2, login_last: false, via_start: false, window_s: 1, timeout_s: 20 });
             }
+        }
+    }
+    // A client that never completes its header until the server gives up (connection timeout 1 s) costs nobody
+    // any budget - in particular not the load balancer's own address, which a later header may announce.
+    for limit in [1usize, 2] {
+        for stall in ["stall-silent", "stall-half-header"] {
+            let own = k("127.0.0.1", "v1:127.0.0.1:4444");
+            let mut h = vec![k("127.0.0.1", stall)];
+            for _ in 0..=limit {
+                h.push(own.clone());
+            }
+            specs.push(Spec { proxy: "v1v2".into(), limit, history: h, login_last: false, via_start: false, window_s: 3600, timeout_s: 1 });
+            specs.push(Spec { proxy: "v1v2".into(), limit, history: vec![k("127.0.0.1", stall), k("127.0.0.1", stall), own.clone(), k("127.0.0.1", "v2-local"), own.clone()], login_last: false, via_start: false, window_s: 3600, timeout_s: 1 });
         }
     }
     // configuration -> listener wiring: the same kinds against passage::start for the one-version configurations
@@ -460,8 +488,8 @@ pub fn run(cli: Cli) -> ! {
         let ks = kinds(if proxy == "off" { "off" } else { "v1v2" });
         for limit in [0usize, 1] {
             // one history that walks through every kind once, and its reverse
-            specs.push(Spec { proxy: proxy.into(), limit, history: ks.clone(), login_last: false, via_start: true, window_s: 3600 });
-            specs.push(Spec { proxy: proxy.into(), limit, history: ks.iter().rev().cloned().collect(), login_last: false, via_start: true, window_s: 3600 });
+            specs.push(Spec { proxy: proxy.into(), limit, history: ks.clone(), login_last: false, via_start: true, window_s: 3600, timeout_s: 20 });
+            specs.push(Spec { proxy: proxy.into(), limit, history: ks.iter().rev().cloned().collect(), login_last: false, via_start: true, window_s: 3600, timeout_s: 20 });
         }
     }
     let rot = common::seed() as usize % specs.len();
@@ -491,9 +519,9 @@ pub fn run(cli: Cli) -> ! {
     rep.set("histories", json!(specs.len()));
     rep.set("connections", json!(conns.load(Ordering::Relaxed)));
     rep.set("exhaustive", json!(true));
-    rep.set("rule", json!("all arrival histories up to depth 3/4 over 13 connection kinds (two load-balancer peers; a source equal to the load balancer's own address; PROXY v1/v2 headers announcing two IPv4 and one IPv6 source; absent, malformed, truncated, disabled-version and address-less headers) for PROXY {v1+v2, v2 only, off} x limiter {limit 1, limit 2, off} with a one hour window; each connection is a real TCP connection that ends at a barrier (status reply or end of stream); plus histories ending in a full login, histories whose header arrives in two segments with a pause, the configuration in which PROXY protocol is on but no version is allowed, and 8 histories with a one second window in which a header arrives 2.5 s after its connection was accepted (the budget is charged at admission time). distinct_nontrivial = distinct (configuration, sequence of header classes)."));
+    rep.set("rule", json!("all arrival histories up to depth 3/4 over 13 connection kinds (two load-balancer peers; a source equal to the load balancer's own address; PROXY v1/v2 headers announcing two IPv4 and one IPv6 source; absent, malformed, truncated, disabled-version and address-less headers) for PROXY {v1+v2, v2 only, off} x limiter {limit 1, limit 2, off} with a one hour window; each connection is a real TCP connection that ends at a barrier (status reply or end of stream); plus histories ending in a full login, histories whose header arrives in two segments with a pause, the configuration in which PROXY protocol is on but no version is allowed, and 8 histories with a one second window in which a header arrives 2.5 s after its connection was accepted (the budget is charged at admission time), and 8 histories (connection timeout 1 s) that begin with clients whose header never completes. distinct_nontrivial = distinct (configuration, sequence of header classes)."));
     rep.sample(json!({"spec": specs[0]}));
-    rep.sample(json!({"spec": Spec { proxy: "v1v2".into(), limit: 1, history: vec![k("127.0.0.1", &format!("v1:{X}")), k("127.0.0.2", &format!("v1:{X}")), k("127.0.0.1", "none")], login_last: false, via_start: false, window_s: 3600 }, "expect": "served, refused (same announced source through another load balancer), closed uncounted"}));
+    rep.sample(json!({"spec": Spec { proxy: "v1v2".into(), limit: 1, history: vec![k("127.0.0.1", &format!("v1:{X}")), k("127.0.0.2", &format!("v1:{X}")), k("127.0.0.1", "none")], login_last: false, via_start: false, window_s: 3600, timeout_s: 20 }, "expect": "served, refused (same announced source through another load balancer), closed uncounted"}));
     rep.assume("the verdict 'served exactly when the limiter admits' uses a shadow instance of the real RateLimiter fed with the reference model's effective addresses (the limiter's own bounds are C13's subject)");
     rep.assume("headers that are valid but announce no address (v1 UNKNOWN, v2 LOCAL) may be closed or treated as the peer; OS scheduling of loopback sockets is not controlled, every verdict is taken at a barrier with a 2 s deadline");
     rep.finish()
